@@ -165,6 +165,11 @@ def extra_instances():
     add(Mol([Token(["OC", _imp("$", w=0)]), S("[$]", ["[$]CC[$]"], ["[$][H]"], "[$]", g(30)),
              Token([_imp("$"), "CO", _imp("$", w=0)]), S("[$]", ["[$]CS[$]"], ["[$]F"], "[$]", g(40)),
              Token([_imp("$"), "N"])], name="implicit-connector-dollar"))
+    # hydrogens written explicitly as the FIRST atom of a token with further atoms (formyl, N-H): folded into their heavy atom like any other
+    add(M("[H]C(=O)O[$]", S("[$]", ["[$]CC[$]"], ["[H]N(C)[$]"], "[$]", g(60)), "[$]N([H])C", name="leading-explicit-H"))
+    # weights that differ but are all tiny (and a zero next to a tiny one): still picked in proportion, never "about equal"
+    add(M("C[>]", S("[>]", ["[<|1e-9|]CC[>]", "[<|3e-9|]C(F)C[>]"], [], "[<]", g(60)), "[<]O", name="tiny-unequal-weights"))
+    add(M("C[>]", S("[>]", ["[<|0|]CC[>]", "[<|1e-9|]C(F)C[>]"], [], "[<]", g(60)), "[<]O", name="zero-next-to-tiny-weight"))
     # an object with fourteen descriptors (two-digit positions in a transition list, descriptor numbers >= 10)
     add(M("C[>]", S("[>]", ["[<]CC[>]", "[<]CO[>]", "[<]CS[>]", "[<]CN[>]", "[<]C(C)C[>]", "[<]CC(F)[>|1 0 0 0 0 0 0 0 2 0 3 0 0 0|]"], ["[<][H]", "[<]F"], "[<]", g(90)), "[<]O",
           name="fourteen-descriptors"))
